@@ -7,9 +7,10 @@ H(name, props, tier, timeout_s, optional, bound)
 
 
 class H:
-    def __init__(self, name, props, tier="quick", timeout=150, optional=False, bound="", tprops=None):
+    def __init__(self, name, props, tier="quick", timeout=150, optional=False, bound="", tprops=None, module=None, src=None):
         self.name, self.props, self.tier, self.timeout, self.optional, self.bound = name, props, tier, timeout, optional, bound
         self.tprops = tprops or []  # properties that include this harness in the thorough tier only
+        self.module, self.src = module, src  # override of the group's harness module / source file (harness lives in another file of the same overlay)
 
 
 GROUPS = {
@@ -66,6 +67,8 @@ GROUPS = {
             H("c06_float_gte", ["C06", "C05"], bound="all 2^64 x 2^64 bit patterns"),
             H("c06_float_eq", ["C06"], bound="all 2^64 x 2^64 bit patterns"),
             H("c06_float_neq", ["C06"], bound="all 2^64 x 2^64 bit patterns"),
+            H("c06_float_cmp_same_object", ["C06", "C15"], bound="one float object compared with itself, all 2^64 bit patterns, six comparisons + PartialEq"),
+            H("c15_eq_reflexive", ["C15", "C06"], bound="any scalar / text / function value compared with itself"),
             H("c06_string_cmp_ascii2", ["C06"], bound="all pairs of ASCII texts of length 0..=2, six comparisons"),
             H("c06_string_cmp_t4", ["C06"], "thorough", 300, True, bound="'é' against the 8-entry literal table"),
             H("c06_string_cmp_t5", ["C06"], "thorough", 300, True, bound="'aé' against the 8-entry literal table"),
@@ -177,8 +180,8 @@ GROUPS["gc"] = {
     "harnesses": [
         H("c03_constructors_register", ["C03", "C04"], timeout=300, bound="Object::float (any bit pattern), Object::string, Object::array with one collector: one entry each, in order"),
         H("c04_maybe_trace_only_heap", ["C04", "C03"], timeout=300, bound="null, bool, any i32, any function descriptor are not adopted; a float of another collector is, once"),
-        H("c04_untrace_flat", ["C04"], timeout=300, bound="two floats + one foreign float: untrace takes out exactly the given object, twice / unknown is a no-op"),
-        H("c03_rooted_float_survives", ["C03"], timeout=300, bound="one float (any bit pattern), rooted in the second of two root slices among immediates"),
+        H("c04_untrace_flat", ["C04"], "thorough", 900, True, bound="one float + one foreign float: untrace takes out exactly the given object; again / unknown object is a no-op (attempted: not decided in 600 s)"),
+        H("c03_rooted_float_survives", ["C03"], "thorough", 900, True, bound="one float (any bit pattern), rooted (attempted: not decided in 600 s)"),
         H("c04_unrooted_float_released", ["C04"], timeout=600, optional=True, bound="one float, no root: released by the collection, a second collection and destroy release nothing more (attempted)"),
     ],
 }
@@ -192,71 +195,58 @@ GROUPS["lexer"] = {
                   "<Token as From<&str>>::from (keyword table), is_whitespace"],
     "stubs": ["char::is_alphabetic / char::is_alphanumeric -> exact on ASCII; 16-entry table for the non-ASCII characters used; panic outside the table "
               "(that the Unicode tables of core are right is trusted)",
-              "core::str::slice_error_fail -> panic (a slice at a non-boundary is reported as a failure)"],
-    "harnesses": [
-        H("c08_first_two_char_ops", ["C08", "C05"], timeout=300, bound="first character in '=', '!', '<', '>', '&', '|' (enumerated), then 0..=2 symbolic ASCII bytes (every length); one symbolic byte already consumed"),
-        H("c08_first_punct_a", ["C08", "C05"], timeout=300, bound="first character in ';', ',', '.', '(', ')', '{', '}' (enumerated), then 0..=2 symbolic ASCII bytes (every length); one symbolic byte already consumed"),
-        H("c08_first_punct_b", ["C08", "C05"], timeout=300, bound="first character in '[', ']', '-', '+', '*', '^', '%' (enumerated), then 0..=2 symbolic ASCII bytes (every length); one symbolic byte already consumed"),
-        H("c08_first_illegal_ascii", ["C08", "C05"], timeout=300, bound="first character in '#', '$', '\\'', ':', '?', '@', '\\\\', '`', '~', '\\u{0}', '\\u{7}', '\\u{1b}', '\\u{7f}' (enumerated), then 0..=2 symbolic ASCII bytes (every length); one symbolic byte already consumed"),
-        H("c08_first_illegal_nonascii", ["C08", "C05"], timeout=300, bound="first character in '€', '🇳', '\\u{00A0}', '٣', '²' (enumerated), then 0..=2 symbolic ASCII bytes (every length); one symbolic byte already consumed"),
-        H("c08_first_digit_0", ["C08", "C05"], timeout=300, bound="first character in '0' (enumerated), then 0..=3 symbolic ASCII bytes (every length); one symbolic byte already consumed"),
-        H("c08_first_digit_9", ["C08"], timeout=300, bound="first character in '9' (enumerated), then 0..=2 symbolic ASCII bytes (every length); one symbolic byte already consumed"),
-        H("c08_first_digit_5_k4", ["C08"], "thorough", 900, True, bound="first character in '5' (enumerated), then 0..=4 symbolic ASCII bytes (every length); one symbolic byte already consumed"),
-        H("c08_first_quote", ["C08", "C05"], timeout=300, bound='first character in \'\\"\' (enumerated), then 0..=4 symbolic ASCII bytes (every length); one symbolic byte already consumed'),
-        H("c08_first_letter_a", ["C08", "C05"], timeout=300, bound="first character in 'a' (enumerated), then 0..=3 symbolic ASCII bytes (every length); one symbolic byte already consumed"),
-        H("c08_first_letter_s", ["C08"], timeout=300, bound="first character in 's' (enumerated), then 0..=3 symbolic ASCII bytes (every length); one symbolic byte already consumed"),
-        H("c08_first_letter_n", ["C08"], timeout=300, bound="first character in 'n' (enumerated), then 0..=3 symbolic ASCII bytes (every length); one symbolic byte already consumed"),
-        H("c08_first_letter_j", ["C08"], timeout=300, bound="first character in 'j' (enumerated), then 0..=2 symbolic ASCII bytes (every length); one symbolic byte already consumed"),
-        H("c08_first_letter_z", ["C08"], timeout=300, bound="first character in 'z' (enumerated), then 0..=2 symbolic ASCII bytes (every length); one symbolic byte already consumed"),
-        H("c08_first_letter_f", ["C08"], timeout=300, bound="first character in 'f' (enumerated), then 0..=2 symbolic ASCII bytes (every length); one symbolic byte already consumed"),
-        H("c08_first_letter_v", ["C08"], timeout=300, bound="first character in 'v' (enumerated), then 0..=2 symbolic ASCII bytes (every length); one symbolic byte already consumed"),
-        H("c08_first_letter_b", ["C08"], timeout=300, bound="first character in 'b' (enumerated), then 0..=2 symbolic ASCII bytes (every length); one symbolic byte already consumed"),
-        H("c08_first_letter_cap", ["C08"], timeout=300, bound="first character in 'Z' (enumerated), then 0..=2 symbolic ASCII bytes (every length); one symbolic byte already consumed"),
-        H("c08_first_underscore", ["C08"], timeout=300, bound="first character in '_' (enumerated), then 0..=2 symbolic ASCII bytes (every length); one symbolic byte already consumed"),
-        H("c08_first_letter_eacute", ["C08"], timeout=300, bound="first character in 'é' (enumerated), then 0..=2 symbolic ASCII bytes (every length); one symbolic byte already consumed"),
-        H("c08_first_letter_pi", ["C08"], timeout=300, bound="first character in 'π' (enumerated), then 0..=2 symbolic ASCII bytes (every length); one symbolic byte already consumed"),
-        H("c08_first_letter_x_k4", ["C08"], "thorough", 900, True, bound="first character in 'x' (enumerated), then 0..=4 symbolic ASCII bytes (every length); one symbolic byte already consumed"),
-        H("c08_keyword_antwoord", ["C08"], timeout=300, bound='token starts "antwoord", "antwoor", then 0..=2 symbolic ASCII bytes (every length); one symbolic byte already consumed'),
-        H("c08_keyword_volgende", ["C08"], timeout=300, bound='token starts "volgende", "volgend", then 0..=2 symbolic ASCII bytes (every length); one symbolic byte already consumed'),
-        H("c08_keyword_functie", ["C08"], timeout=300, bound='token starts "functie", "functi", then 0..=2 symbolic ASCII bytes (every length); one symbolic byte already consumed'),
-        H("c08_keyword_zolang", ["C08"], timeout=300, bound='token starts "zolang", "zolan", then 0..=2 symbolic ASCII bytes (every length); one symbolic byte already consumed'),
-        H("c08_keyword_anders", ["C08"], timeout=300, bound='token starts "anders", "ander", then 0..=2 symbolic ASCII bytes (every length); one symbolic byte already consumed'),
-        H("c08_keyword_als_stel", ["C08"], timeout=300, bound='token starts "als", "stel", then 0..=2 symbolic ASCII bytes (every length); one symbolic byte already consumed'),
-        H("c08_keyword_stop_nee", ["C08"], timeout=300, bound='token starts "stop", "nee", then 0..=2 symbolic ASCII bytes (every length); one symbolic byte already consumed'),
-        H("c08_keyword_ja_case", ["C08"], timeout=300, bound='token starts "ja", "Als", "jA", then 0..=2 symbolic ASCII bytes (every length); one symbolic byte already consumed'),
-        H("c08_ident_inner_a", ["C08"], timeout=300, bound='token starts "a1", "a_", "aé", then 0..=2 symbolic ASCII bytes (every length); one symbolic byte already consumed'),
-        H("c08_ident_inner_b", ["C08"], timeout=300, bound='token starts "éa", "a€", "a\\u{2028}", then 0..=2 symbolic ASCII bytes (every length); one symbolic byte already consumed'),
-        H("c08_ident_inner_c", ["C08"], timeout=300, bound='token starts "x٣", "a²", then 0..=2 symbolic ASCII bytes (every length); one symbolic byte already consumed'),
-        H("c08_number_inner_a", ["C08"], timeout=300, bound='token starts "1.", "1.5", "10", then 0..=2 symbolic ASCII bytes (every length); one symbolic byte already consumed'),
-        H("c08_number_inner_b", ["C08"], timeout=300, bound='token starts "1.2.", "0é", "7\\u{2028}", then 0..=2 symbolic ASCII bytes (every length); one symbolic byte already consumed'),
-        H("c08_string_inner_a", ["C08"], timeout=300, bound='token starts "\\"\\\\\\"", "\\"\\\\\\\\", "\\"é", then 0..=2 symbolic ASCII bytes (every length); one symbolic byte already consumed'),
-        H("c08_string_inner_b", ["C08"], timeout=300, bound='token starts "\\"€\\"", "\\"a\\\\", "\\"\\\\n", then 0..=2 symbolic ASCII bytes (every length); one symbolic byte already consumed'),
-        H("c08_string_inner_c", ["C08"], timeout=300, bound='token starts "\\"\\\\\\\\\\\\\\\\", "\\"\\\\\\\\\\\\", then 0..=2 symbolic ASCII bytes (every length); one symbolic byte already consumed'),
-        H("c08_ws_ascii_a", ["C08", "C05"], timeout=300, bound='skipped part in " ", "\\t", "\\n" x follower in "", "a", "1", "=", then 0..=1 symbolic ASCII bytes'),
-        H("c08_ws_ascii_b", ["C08"], timeout=300, bound='skipped part in "\\r", "\\u{b}", "\\u{c}" x follower in "", "a", "1", "=", then 0..=1 symbolic ASCII bytes'),
-        H("c08_ws_unicode_a", ["C08"], timeout=300, bound='skipped part in "\\u{0085}", "\\u{200E}", "\\u{200F}" x follower in "", "a", "1", ";", then 0..=1 symbolic ASCII bytes'),
-        H("c08_ws_unicode_b", ["C08"], timeout=300, bound='skipped part in "\\u{2028}", "\\u{2029}", " \\t\\r\\n " x follower in "", "\\"", "/", "é", then 0..=1 symbolic ASCII bytes'),
-        H("c08_comment_to_eol_a", ["C08", "C05"], timeout=300, bound='skipped part in "//\\n", "// x\\n" x follower in "", "a", "1", "/", ";", then 0..=1 symbolic ASCII bytes'),
-        H("c08_comment_to_eol_b", ["C08"], timeout=300, bound='skipped part in "//é€\\n", "///\\n", "//\\n//\\n" x follower in "", "a", "\\"", then 0..=1 symbolic ASCII bytes'),
-        H("c08_comment_to_eof", ["C08", "C05"], timeout=300, bound='skipped part in "//", "// x", "//\\"", "// stel", "///", "//é" x follower in "", then 0..=0 symbolic ASCII bytes'),
-        H("c08_stream_a", ["C08"], timeout=300, bound='whole concrete texts ["stel a1=10;", "a<=b>=c", "x==y!=z", "p&&q||!r"]: every token (validates the reference tokenizer and the position bookkeeping)'),
-        H("c08_stream_b", ["C08"], timeout=300, bound='whole concrete texts ["f(a,b)[0]", "\\"a\\\\\\"\\" + s", "1.5*2-3/4", "a//c\\nb"]: every token (validates the reference tokenizer and the position bookkeeping)'),
-        H("c08_stream_c", ["C08"], timeout=300, bound='whole concrete texts ["als a{1}anders{2}", "zolang ja{stop}", "a=-1%2^3 é"]: every token (validates the reference tokenizer and the position bookkeeping)'),
-    ],
+              "core::str::slice_error_fail -> panic (a slice at a non-boundary is reported as a failure)",
+              "char::is_numeric -> same table (not called by the unchanged tokenizer; present so that a change that starts calling it is decided rather than timing out)"],
+    "harnesses": [],  # filled from harness/lexer_proofs.rs below (one registry entry per macro instantiation)
 }
 
-GROUPS["parser"] = {
-    "src": "src/parser.rs",
-    "harness_file": "parser_proofs.rs",
-    "module": "parser::__verif_k",
-    "functions": ["parser.rs: Parser::parse_string_expression (decoder of the raw text between the quotes), Parser::new / advance on the empty text"],
-    "stubs": ["core::str::slice_error_fail -> panic"],
-    "harnesses": [
-        H("c08_decode_sym3", ["C08"], timeout=400, bound="every raw literal body of 0..=3 characters over { backslash, quote, n, t, a, space } the lexer can hand over"),
-        H("c08_decode_sym4", ["C08"], "thorough", 900, True, bound="every raw literal body of 0..=4 characters over the same alphabet"),
-        H("c08_decode_prefixed", ["C08"], timeout=400, bound="5 concrete starts (two escaped backslashes, escaped backslash then n, escaped quote inside, non-ASCII then tab, unknown escape) + 2 symbolic characters"),
-    ],
-}
+LEXER_C05 = {"c08_first_two_char_ops", "c08_first_punct", "c08_first_illegal", "c08_first_quote",
+             "c08_first_digit_0", "c08_first_letter_a", "c08_ws_each_a", "c08_ws_to_eof", "c08_comment_to_eof", "c08_comment_to_eol_a", "c08_number_inner_c"}
+
+
+def _lexer_harnesses():
+    """the harness list of the lexer group is read off the harness file, so names and stated bounds cannot drift from it"""
+    import os
+    import re
+    src = open(os.path.join(os.path.dirname(os.path.dirname(os.path.dirname(os.path.abspath(__file__)))), "harness", "lexer_proofs.rs")).read()
+    rows = []
+    for m in re.finditer(r'^    (first_char|prefix|skip|stream)_harness!\((c08_\w+), (\d+), (.*)\);$', src, re.M):
+        kind, name, _unwind, rest = m.groups()
+        if kind == "first_char":
+            k, chars = re.match(r'(\d+), \[(.*)\]', rest).groups()
+            bound = "first character in %s (enumerated), then 0..=%s symbolic ASCII bytes (every length); one symbolic byte already consumed" % (chars, k)
+        elif kind == "prefix":
+            k, pre = re.match(r'(\d+), \[(.*)\]', rest).groups()
+            bound = "token starts %s, then 0..=%s symbolic ASCII bytes (every length); one symbolic byte already consumed" % (pre, k)
+        elif kind == "skip":
+            k, sk, fo = re.match(r'(\d+), \[(.*)\], \[(.*)\]', rest).groups()
+            bound = "skipped part in %s x follower in %s, then 0..=%s symbolic ASCII bytes" % (sk, fo, k)
+        else:
+            bound = "whole concrete texts %s: every token (validates the reference tokenizer and the position bookkeeping)" % rest
+        props = ["C08", "C05"] if name in LEXER_C05 else ["C08"]
+        if name.endswith("_k4"):
+            rows.append(H(name, props, "thorough", 900, True, bound=bound))
+        elif name.endswith("_x"):
+            rows.append(H(name, props, "thorough", 600, bound=bound))
+        else:
+            rows.append(H(name, props, timeout=300, bound=bound))
+    return rows
+
+
+GROUPS["lexer"]["harnesses"] = _lexer_harnesses()
+
+PARSER_H = dict(module="parser::__verif_k", src="src/parser.rs")
+GROUPS["lexer"]["extra"] = {"src/parser.rs": ["parser_proofs.rs"]}
+GROUPS["lexer"]["jobs"] = 16  # lexer harnesses stay below 5 GB each (measured)
+GROUPS["lexer"]["functions"].append("parser.rs: Parser::parse_string_expression (decoder of the raw text between the quotes), Parser::new / advance on the empty text")
+GROUPS["lexer"]["stubs"].append("alloc::string::String::push (decoder harnesses only) -> appends the UTF-8 bytes into the reserved capacity and ASSERTS that the capacity "
+                                "suffices (no re-allocation: CBMC's realloc with a symbolic size does not finish)")
+GROUPS["lexer"]["harnesses"] += [
+    H("c08_decode_sym3", ["C08"], timeout=400, bound="every raw literal body of 0..=3 characters over { backslash, quote, n, t, a, space } the lexer can hand over", **PARSER_H),
+    H("c08_decode_sym4", ["C08"], "thorough", 900, True, bound="every raw literal body of 0..=4 characters over the same alphabet", **PARSER_H),
+    H("c08_decode_prefixed", ["C08"], timeout=400, bound="raw bodies: four backslashes / backslash backslash n / a, escaped quote, b / backslash x, each + 0..=1 symbolic character", **PARSER_H),
+    H("c08_decode_nonascii_before_escape", ["C08"], timeout=400, bound="raw bodies: e-acute backslash t / three letters with non-ASCII backslash n, + 0..=1 symbolic character", **PARSER_H),
+]
 
 
 def harnesses_for(prop, tier):
